@@ -132,6 +132,130 @@ var decode = fw.Register(&fw.Prop[Case]{
 	MinLabel: []string{"concat", "piece:u", "piece:s", "piece:d", "multiline", "crlf", "blank-line", "tab-indent", "trailing-blanks", "escape", "comment-text-in-string"},
 })
 
+// ---------------------------------------------------------------- repeated text
+//
+// The value of a double-quoted string depends on where it stands (the column of its opening quote), not only on its
+// text: the same raw text written twice, at two columns, in one document or in two documents parsed with shared
+// interners (what compile.ParseModules does), has two independent values.
+
+type RepeatCase struct {
+	Stmts []*yg.Stmt `json:"stmts"`
+	Nest  []int      `json:"nest"`  // wrapper blocks around each statement in the first document
+	Lead2 []string   `json:"lead2"` // trivia before each statement in the second document (reversed order, no wrappers)
+}
+
+var leads = []string{"", " ", "    ", "\t", "\n", "\n    ", "\n\t\t", "        ", "  \t  ", "/* c */ ", "\r\n   ", "\n                ", "\n  "}
+
+func genRepeat(t *rapid.T) RepeatCase {
+	var c RepeatCase
+	n := 2 + rapid.IntRange(0, 2).Draw(t, "nstmts")
+	for i := 0; i < n; i++ {
+		s := genCase(t).Stmt
+		for try := 0; i == 0 && try < 4 && !(len(s.Pieces) == 1 && s.Pieces[0].Q == "d" && strings.Contains(s.Pieces[0].Raw, "\n")); try++ {
+			s = genCase(t).Stmt // the first statement is usually a multi-line string, so that copies of it are interesting
+		}
+		if i > 0 && rapid.IntRange(0, 2).Draw(t, "copy") != 0 {
+			src := c.Stmts[rapid.IntRange(0, i-1).Draw(t, "copyof")]
+			s.Pieces = append([]yg.Piece(nil), src.Pieces...)
+			s.Plus = append([]string(nil), src.Plus...)
+			s.T2 = src.T2
+		}
+		c.Stmts = append(c.Stmts, s)
+		c.Nest = append(c.Nest, rapid.IntRange(0, 2).Draw(t, "nest"))
+		c.Lead2 = append(c.Lead2, leads[rapid.IntRange(0, len(leads)-1).Draw(t, "lead2")])
+	}
+	return c
+}
+
+func wrap(kids []*yg.Stmt) *yg.Stmt {
+	return &yg.Stmt{Kw: "x:outer", Pieces: []yg.Piece{{Q: "u", Raw: "o"}}, T1: " ", T0: " ", Kids: kids, T3: "\n"}
+}
+
+func preorder(n parse.Node, out *[]parse.Node) {
+	*out = append(*out, n)
+	for _, k := range n.Children() {
+		preorder(k, out)
+	}
+}
+
+func checkRepeat(c RepeatCase) fw.Outcome {
+	out := fw.Outcome{}
+	var kids1, kids2 []*yg.Stmt
+	for i, s := range c.Stmts {
+		w := s
+		for k := 0; k < c.Nest[i]; k++ {
+			w = wrap([]*yg.Stmt{w})
+		}
+		kids1 = append(kids1, w)
+	}
+	for i := len(c.Stmts) - 1; i >= 0; i-- {
+		cp := *c.Stmts[i]
+		cp.T0 = c.Lead2[i]
+		kids2 = append(kids2, &cp)
+	}
+	si, ai := parse.NewStringInterner(), parse.NewArgInterner()
+	seen := map[string]map[string]bool{} // raw text of a multi-line double-quoted piece -> its distinct values
+	for d, kids := range [][]*yg.Stmt{kids1, kids2} {
+		text, infos := yg.Render([]*yg.Stmt{wrap(kids)}, "\n")
+		out.Key += text
+		var tree *parse.Tree
+		var err error
+		if !fw.WithTimeout(20, func() { tree, err = parse.ParseWithInterners("t.yang", text, nil, si, ai) }) {
+			out.Violation = fmt.Sprintf("parse did not return on %q", text)
+			return out
+		}
+		if err != nil {
+			out.Violation = fmt.Sprintf("valid document %d rejected: %v\ntext: %q", d+1, err, text)
+			return out
+		}
+		var nodes []parse.Node
+		preorder(tree.Root, &nodes)
+		if len(nodes) != len(infos) {
+			out.Violation = fmt.Sprintf("document %d has %d statements, the tree %d\ntext: %q", d+1, len(infos), len(nodes), text)
+			return out
+		}
+		flat := yg.Flatten([]*yg.Stmt{wrap(kids)})
+		for i, info := range infos {
+			if info.Grey || !info.HasArg {
+				continue
+			}
+			if got := nodes[i].Argument().String(); got != info.Value {
+				out.Violation = fmt.Sprintf("document %d, statement %d (%s, line %d): argument decoded as %q, RFC 6020 6.1.3 value is %q\ntext: %q", d+1, i, info.Kw, info.Line, got, info.Value, text)
+				return out
+			}
+			for _, p := range flat[i].Pieces {
+				if p.Q == "d" && strings.Contains(p.Raw, "\n") && len(flat[i].Pieces) == 1 {
+					if seen[p.Raw] == nil {
+						seen[p.Raw] = map[string]bool{}
+					}
+					seen[p.Raw][info.Value] = true
+				}
+			}
+		}
+	}
+	for _, vals := range seen {
+		if len(vals) >= 2 {
+			out.NonTrivial = true
+			out.Labels = append(out.Labels, "same-text-different-values")
+			break
+		}
+	}
+	if len(seen) > 0 {
+		out.Labels = append(out.Labels, "multiline")
+	}
+	return out
+}
+
+var repeat = fw.Register(&fw.Prop[RepeatCase]{
+	ID: "C08", Name: "repeat",
+	Rule: "2-4 statements of the decode generator in one document, later ones often repeating the argument text of an earlier one at another column and nesting depth, then the same statements " +
+		"in reverse order at other columns in a second document parsed with the same string and argument interners; oracle: every argument of both documents equals the RFC 6020 value for its own position; " +
+		"non-trivial = one multi-line double-quoted text occurs with two different values",
+	Gen: genRepeat, Check: checkRepeat, Weight: 0.4,
+	MinLabel: []string{"same-text-different-values"},
+})
+
 func TestMain(m *testing.M) { fw.Main(m) }
 
 func TestDecode(t *testing.T) { fw.Run(t, decode) }
+func TestRepeat(t *testing.T) { fw.Run(t, repeat) }
